@@ -14,7 +14,7 @@ RULE = (
 )
 ASSUMPTIONS = ["divisions handed to from_map/from_delayed by the layouts are correct by construction (user-asserted divisions are exempt in the property)",
                "Lengths is observed through Lengths(expr).optimize() as the repository's tests do; skipped (counted) if that path is unavailable"]
-BUDGET_S = {"quick": 170, "thorough": 3000}
+BUDGET_S = {"quick": 170, "thorough": 900}
 
 W = {"loc_slice": 2.5, "set_index": 2.5, "sort_values": 1.5, "merge_index": 2.5, "concat0": 2, "concat1": 1.5, "repartition": 2.5, "partitions": 2.5, "head": 2, "cut": 1.5,
      "index_of": 1.5, "filter_pred": 2, "shift": 1, "cum": 1, "reset_index": 1, "merge": 1.5, "groupby_agg": 1.5, "reduce": 1.0, "map_partitions": 1,
